@@ -73,6 +73,9 @@ func setup6(args ...string) (handler.Handler6, error) {
 			OptionCode: dhcpv6.OptionBootfileParam,
 			OptionData: []byte(params),
 		}
+		// RFC 5970 §3.2: parameters are length-prefixed on the wire; the raw form above
+		// does not parse back
+		opt60 = dhcpv6.OptBootFileParam(params)
 	}
 	log.Printf("loaded NBP plugin for DHCPv6.")
 	return nbpHandler6, nil
